@@ -18,6 +18,81 @@ type decodeSite struct {
 	Fn     *ssa.Function
 	Data   ssa.Value
 	Target ssa.Value // the pointer passed (MakeInterface unwrapped)
+	ErrV   ssa.Value // decode through a helper: the helper's error result (nil for a direct json.Unmarshal)
+	Inner  *decodeSite
+}
+
+// ErrTerm: the term of the decode's error result.
+func (d decodeSite) ErrTerm(T *Terms) string {
+	if d.ErrV != nil {
+		return T.T(d.ErrV)
+	}
+	return T.T(d.Call)
+}
+
+// decodeSitesDeep: the decode sites of fn, including decodes done by a repo helper that fn calls and that returns the
+// decoded value: h(data) (*S, error) with exactly one json.Unmarshal(<param>, target) in h and target the value
+// returned. The site is then the call of h in fn (Target = its result #0, ErrV = its result #1, Inner = the
+// json.Unmarshal in h).
+func decodeSitesDeep(p *Prog, fn *ssa.Function) []decodeSite {
+	out := decodeSites(fn)
+	for _, cs := range callsIn(fn, false) {
+		c, ok := cs.Instr.(*ssa.Call)
+		h := cs.Common.StaticCallee()
+		if !ok || h == nil || !p.InRepo(h) || h == fn || h.Signature.Results().Len() != 2 {
+			continue
+		}
+		inner := decodeSites(h)
+		if len(inner) != 1 {
+			continue
+		}
+		in := inner[0]
+		// data is (a slice of) a parameter of h
+		dv := in.Data
+		if sl, ok := dv.(*ssa.Slice); ok {
+			dv = sl.X
+		}
+		idx := -1
+		for i, q := range h.Params {
+			if ssa.Value(q) == dv {
+				idx = i
+			}
+		}
+		if idx < 0 || idx >= len(cs.Common.Args) {
+			continue
+		}
+		// every non-nil result #0 is the decode target
+		okRet := true
+		n := 0
+		for _, rv := range returnedValues(h, 0) {
+			if k, ok := rv.Val.(*ssa.Const); ok && k.IsNil() {
+				continue
+			}
+			n++
+			if rv.Val != in.Target {
+				okRet = false
+			}
+		}
+		if !okRet || n == 0 {
+			continue
+		}
+		var r0, r1 ssa.Value
+		for _, ref := range *c.Referrers() {
+			if ex, ok := ref.(*ssa.Extract); ok {
+				if ex.Index == 0 {
+					r0 = ex
+				} else {
+					r1 = ex
+				}
+			}
+		}
+		if r0 == nil || r1 == nil {
+			continue
+		}
+		inn := in
+		out = append(out, decodeSite{Call: c, Fn: fn, Data: cs.Common.Args[idx], Target: r0, ErrV: r1, Inner: &inn})
+	}
+	return out
 }
 
 func decodeSites(fn *ssa.Function) []decodeSite {
@@ -31,7 +106,7 @@ func decodeSites(fn *ssa.Function) []decodeSite {
 		if mi, ok := t.(*ssa.MakeInterface); ok {
 			t = mi.X
 		}
-		out = append(out, decodeSite{c, fn, c.Call.Args[0], t})
+		out = append(out, decodeSite{Call: c, Fn: fn, Data: c.Call.Args[0], Target: t})
 	}
 	return out
 }
@@ -41,6 +116,9 @@ func decodeSites(fn *ssa.Function) []decodeSite {
 // decode cannot be re-executed without re-executing the Alloc (json.Unmarshal leaves absent members - and, for
 // the literal null, everything - untouched, so a reused target leaks the previous message into the next one).
 func freshTarget(p *Prog, d decodeSite) (bool, string) {
+	if d.Inner != nil {
+		return freshTarget(p, *d.Inner)
+	}
 	a, ok := d.Target.(*ssa.Alloc)
 	if !ok {
 		// a recycled object is acceptable if it is reset to the zero value on every path to the decode
@@ -288,4 +366,182 @@ func sharedPackageState(p *Prog, fns []*ssa.Function) []struct {
 		}
 	}
 	return out
+}
+
+// encodeErrorEdge: the edge a->b is the "error" side of a test `err != nil` (or the false side of `err == nil`) whose err
+// is the error result of json.Marshal / (*json.Encoder).Encode, or of a repo function that reaches one of those and does
+// not reach a connection write (so its error can only be an encoding error). Values are resolved, not names.
+func encodeErrorEdge(p *Prog, cg *CallGraph, wfn map[*ssa.Function]bool, a, b *ssa.BasicBlock) bool {
+	if len(a.Instrs) == 0 || len(a.Succs) != 2 {
+		return false
+	}
+	ifi, ok := a.Instrs[len(a.Instrs)-1].(*ssa.If)
+	if !ok {
+		return false
+	}
+	bo, ok := ifi.Cond.(*ssa.BinOp)
+	if !ok || (bo.Op != token.NEQ && bo.Op != token.EQL) {
+		return false
+	}
+	var e ssa.Value
+	if k, ok := bo.Y.(*ssa.Const); ok && k.IsNil() {
+		e = bo.X
+	} else if k, ok := bo.X.(*ssa.Const); ok && k.IsNil() {
+		e = bo.Y
+	} else {
+		return false
+	}
+	errSide := a.Succs[0]
+	if bo.Op == token.EQL {
+		errSide = a.Succs[1]
+	}
+	if errSide != b {
+		return false
+	}
+	return isEncodeError(p, cg, wfn, e, 0)
+}
+
+func isEncodeError(p *Prog, cg *CallGraph, wfn map[*ssa.Function]bool, e ssa.Value, depth int) bool {
+	if depth > 4 {
+		return false
+	}
+	var call *ssa.Call
+	switch x := e.(type) {
+	case *ssa.Extract:
+		call, _ = x.Tuple.(*ssa.Call)
+	case *ssa.Call:
+		call = x
+	case *ssa.UnOp:
+		if x.Op == token.MUL {
+			if al, ok := x.X.(*ssa.Alloc); ok {
+				if val, ok := singleStore(al); ok {
+					return isEncodeError(p, cg, wfn, val, depth+1)
+				}
+			}
+		}
+		return false
+	case *ssa.Phi:
+		for _, ed := range x.Edges {
+			if k, ok := ed.(*ssa.Const); ok && k.IsNil() {
+				continue
+			}
+			if !isEncodeError(p, cg, wfn, ed, depth+1) {
+				return false
+			}
+		}
+		return true
+	}
+	if call == nil {
+		return false
+	}
+	isEnc := func(n string) bool {
+		return n == "json.Marshal" || n == "json.Encoder.Encode" || n == "json.MarshalIndent"
+	}
+	if isEnc(calleeName(&call.Call)) {
+		return true
+	}
+	t := call.Call.StaticCallee()
+	if t == nil || !p.InRepo(t) {
+		return false
+	}
+	enc := false
+	for g := range cg.Reach([]*ssa.Function{t}, false) {
+		if wfn[g] {
+			return false
+		}
+		for _, cs := range callsIn(g, false) {
+			if isEnc(cs.Name()) {
+				enc = true
+			}
+		}
+	}
+	return enc
+}
+
+// zeroFieldEdgeInContext: the edge a->b of g requires a bool member of a pointer parameter (`p.F` resp. `!p.F`) to be
+// true, while at every call of g from a function in `from` the argument is a struct literal of the caller that never
+// stores F (so F is false there): the edge cannot be taken in that calling context.
+func zeroFieldEdgeInContext(cg *CallGraph, g *ssa.Function, a, b *ssa.BasicBlock, from map[*ssa.Function]bool) bool {
+	if len(a.Instrs) == 0 || len(a.Succs) != 2 {
+		return false
+	}
+	ifi, ok := a.Instrs[len(a.Instrs)-1].(*ssa.If)
+	if !ok {
+		return false
+	}
+	cond := ifi.Cond
+	want := a.Succs[0] == b // the value the condition has on this edge
+	for {
+		if u, ok := cond.(*ssa.UnOp); ok && u.Op == token.NOT {
+			cond, want = u.X, !want
+			continue
+		}
+		break
+	}
+	if !want {
+		return false
+	}
+	ld, ok := cond.(*ssa.UnOp)
+	if !ok || ld.Op != token.MUL {
+		return false
+	}
+	fa, ok := ld.X.(*ssa.FieldAddr)
+	if !ok {
+		return false
+	}
+	par, ok := fa.X.(*ssa.Parameter)
+	if !ok {
+		return false
+	}
+	// the member is not written in g before the test
+	for _, ref := range *par.Referrers() {
+		if f2, ok := ref.(*ssa.FieldAddr); ok && f2.Field == fa.Field {
+			for _, r2 := range *f2.Referrers() {
+				if _, isSt := r2.(*ssa.Store); isSt {
+					return false
+				}
+			}
+		}
+	}
+	idx := -1
+	for i, q := range g.Params {
+		if q == par {
+			idx = i
+		}
+	}
+	if idx < 0 {
+		return false
+	}
+	name := fieldName(fa.X, fa.Field)
+	n := 0
+	for _, cs := range cg.Callers[g] {
+		if !from[cs.Instr.Parent()] {
+			continue
+		}
+		n++
+		args := cs.Common.Args
+		if len(args) != len(g.Params) {
+			return false
+		}
+		al := unwrapAlloc(args[idx])
+		if al == nil || al.Parent() != cs.Instr.Parent() {
+			return false
+		}
+		if len(fieldStores(al)[name]) != 0 {
+			return false
+		}
+		// the literal does not escape before the call other than into this call
+		for _, ref := range *al.Referrers() {
+			switch x := ref.(type) {
+			case *ssa.FieldAddr:
+			case ssa.CallInstruction:
+				if x != cs.Instr {
+					return false
+				}
+			default:
+				return false
+			}
+		}
+	}
+	return n > 0
 }
